@@ -26,7 +26,7 @@ func vcross(a, b v3) v3 {
 	return v3{a[1]*b[2] - a[2]*b[1], a[2]*b[0] - a[0]*b[2], a[0]*b[1] - a[1]*b[0]}
 }
 func vdot(a, b v3) float64 { return a[0]*b[0] + a[1]*b[1] + a[2]*b[2] }
-func vnorm(a v3) float64  { return math.Sqrt(vdot(a, a)) }
+func vnorm(a v3) float64   { return math.Sqrt(vdot(a, a)) }
 func vangle(a, b v3) float64 {
 	return math.Atan2(vnorm(vcross(a, b)), vdot(a, b))
 }
